@@ -18,6 +18,7 @@ import (
 	"math/big"
 	"net"
 	"net/netip"
+	"os"
 	"strings"
 	"sync"
 	"testing"
@@ -25,6 +26,7 @@ import (
 
 	"github.com/containernetworking/cni/pkg/skel"
 	"github.com/go-logr/logr"
+	"github.com/vishvananda/netlink"
 	"google.golang.org/protobuf/proto"
 	corev1 "k8s.io/api/core/v1"
 	metav1 "k8s.io/apimachinery/pkg/apis/meta/v1"
@@ -295,11 +297,64 @@ func c12GenRoutes(t *rapid.T, fam4, fam6 bool) []string {
 	return out
 }
 
-func c12GenMAC(_ *rapid.T) string {
-	// link.GetDeviceNumber needs a physical device with that address (netlink reports no
-	// hardware address for the loopback device, so even 00:..:00 is not found and the
-	// parser retries for 10 s); "" skips the lookup.
-	return ""
+// c12MACDev is the scenario's placeholder for "the MAC address of an ENI the kernel
+// knows": it is resolved at run time to the address of a physical device of this
+// machine (see c12Device), so that link.GetDeviceNumber finds it and the ENI index
+// becomes part of the round trip. "" skips the lookup (a MAC no device carries would make
+// parseSetupConf retry for 10 s; netlink reports no address for the loopback device).
+const c12MACDev = "dev"
+
+func c12GenMAC(t *rapid.T) string {
+	return rapid.SampledFrom([]string{"", c12MACDev}).Draw(t, "mac")
+}
+
+var (
+	c12DevOnce  sync.Once
+	c12DevMAC   string
+	c12DevIndex int
+)
+
+// c12Device finds a physical network device of the machine without terway code: sysfs
+// says it is backed by a bus device, the standard library gives address and index, and
+// the netlink library must classify it as a plain device (what GetDeviceNumber accepts).
+func c12Device() (string, int) {
+	c12DevOnce.Do(func() {
+		ifs, _ := net.Interfaces()
+		for _, ifc := range ifs {
+			if len(ifc.HardwareAddr) != 6 {
+				continue
+			}
+			if _, err := os.Stat("/sys/class/net/" + ifc.Name + "/device"); err != nil {
+				continue
+			}
+			l, err := netlink.LinkByName(ifc.Name)
+			if err != nil {
+				continue
+			}
+			if _, ok := l.(*netlink.Device); !ok {
+				continue
+			}
+			c12DevMAC, c12DevIndex = ifc.HardwareAddr.String(), ifc.Index
+			return
+		}
+	})
+	return c12DevMAC, c12DevIndex
+}
+
+func c12MAC(s string) string {
+	if s == c12MACDev {
+		m, _ := c12Device()
+		return m
+	}
+	return s
+}
+
+// c12WantIndex is the ENI index the plugin must recover for a MAC the daemon sent.
+func c12WantIndex(mac string) int {
+	if m, idx := c12Device(); mac != "" && mac == m {
+		return idx
+	}
+	return 0
 }
 
 func c12GenCNI(t *rapid.T) c12CNI {
@@ -613,7 +668,7 @@ func c12ParseIPNet(c *vt.Ctx, s string) *net.IPNet {
 
 // c12DaemonENI is what pkg/aliyun/eni builds from instance metadata for an attached ENI.
 func c12DaemonENI(c *vt.Ctx, w *c12World, e *c12ENI, trunk bool) *daemon.ENI {
-	d := &daemon.ENI{ID: e.ID, MAC: e.MAC, Trunk: trunk, ERdma: e.ERdma, VSwitchID: "vsw-" + e.ID}
+	d := &daemon.ENI{ID: e.ID, MAC: c12MAC(e.MAC), Trunk: trunk, ERdma: e.ERdma, VSwitchID: "vsw-" + e.ID}
 	d.PrimaryIP.IPv4 = net.ParseIP(e.Prim4)
 	d.GatewayIP.IPv4 = net.ParseIP(e.GW4)
 	d.VSwitchCIDR.IPv4 = c12ParseIPNet(c, e.CIDR4)
@@ -667,7 +722,7 @@ func c12PodENIObject(w *c12World) *networkv1beta1.PodENI {
 	}
 	for _, a := range w.Allocs {
 		al := networkv1beta1.Allocation{
-			ENI:          networkv1beta1.ENI{ID: a.ENIID, MAC: a.MAC, Zone: "zone-a", VSwitchID: "vsw-" + a.ENIID},
+			ENI:          networkv1beta1.ENI{ID: a.ENIID, MAC: c12MAC(a.MAC), Zone: "zone-a", VSwitchID: "vsw-" + a.ENIID},
 			IPv4:         a.V4,
 			IPv6:         a.V6,
 			IPv4CIDR:     a.CIDR4,
@@ -702,7 +757,7 @@ func c12NodeCR(w *c12World) *networkv1beta1.Node {
 	for i := range w.ENIs {
 		e := &w.ENIs[i]
 		ni := &networkv1beta1.NetworkInterface{
-			ID: e.ID, Status: "InUse", MacAddress: e.MAC, VSwitchID: "vsw-" + e.ID,
+			ID: e.ID, Status: "InUse", MacAddress: c12MAC(e.MAC), VSwitchID: "vsw-" + e.ID,
 			PrimaryIPAddress: e.Prim4, IPv4CIDR: e.CIDR4, IPv6CIDR: e.CIDR6,
 			NetworkInterfaceType:        networkv1beta1.ENITypeSecondary,
 			NetworkInterfaceTrafficMode: networkv1beta1.NetworkInterfaceTrafficModeStandard,
@@ -809,7 +864,7 @@ func c12Build(c *vt.Ctx, w *c12World) *c12Live {
 				if !busy {
 					continue
 				}
-				it := daemon.ResourceItem{Type: daemon.ResourceTypeENIIP, ENIID: e.ID, ENIMAC: e.MAC}
+				it := daemon.ResourceItem{Type: daemon.ResourceTypeENIIP, ENIID: e.ID, ENIMAC: c12MAC(e.MAC)}
 				if w.v4() {
 					it.IPv4 = e.V4[s]
 				}
@@ -1212,6 +1267,12 @@ func c12CheckParsed(c *vt.Ctx, what string, cfg *types.SetupConfig, nc *rpc.NetC
 	if cfg.DefaultRoute != nc.GetDefaultRoute() {
 		c.Fatalf("%s: default-route flag %v, sent %v", what, cfg.DefaultRoute, nc.GetDefaultRoute())
 	}
+	if want := c12WantIndex(nc.GetENIInfo().GetMAC()); cfg.ENIIndex != want {
+		c.Fatalf("%s: ENI index %d for MAC %q, the device has index %d", what, cfg.ENIIndex, nc.GetENIInfo().GetMAC(), want)
+	}
+	if nc.GetENIInfo().GetMAC() != "" {
+		c.Label("eni-index-from-mac")
+	}
 	wantName := nc.GetIfName()
 	if wantName == "" {
 		wantName = argsIf
@@ -1225,6 +1286,85 @@ func c12CheckParsed(c *vt.Ctx, what string, cfg *types.SetupConfig, nc *rpc.NetC
 	if want := c12RefDP(ipType, nc.GetENIInfo().GetTrunk(), cs.VlanStrip); cfg.DP != want {
 		c.Fatalf("%s: datapath %d for (ipType=%s trunk=%v vlan=%q), the table says %d", what, cfg.DP, ipType,
 			nc.GetENIInfo().GetTrunk(), cs.VlanStrip, want)
+	}
+}
+
+// c12CheckDelCheck feeds one NetConf of a GetIPInfo reply (what CNI DEL and CNI CHECK
+// receive) to the real parseTearDownConf and parseCheckConf and compares with what the
+// daemon sent and with what parseSetupConf made of the same configuration at ADD time.
+func c12CheckDelCheck(c *vt.Ctx, what string, nc *rpc.NetConf, setup *types.SetupConfig, conf *types.CNIConf, cs *c12CNI,
+	ipType rpc.IPType, args *skel.CmdArgs) {
+	bi := nc.GetBasicInfo()
+	trunk := nc.GetENIInfo().GetTrunk()
+	wantDP := c12RefDP(ipType, trunk, cs.VlanStrip)
+	wantIdx := c12WantIndex(nc.GetENIInfo().GetMAC())
+
+	td, err := parseTearDownConf(nc, conf, ipType)
+	if err != nil {
+		c.Fatalf("%s: DEL parser rejects %v: %v", what, nc, err)
+	}
+	// Teardown does not distinguish trunk members: parseTearDownConf evaluates the table
+	// without trunking (a literal `false`, on purpose — doCmdDel only has teardown branches
+	// for the ipvlan and policy-route datapaths, everything else is removed by
+	// GenericTearDown, and for trunk members the policy-route teardown is the cleanup that
+	// exists). That is still a mapping determined by IP type, trunking and VLAN mode, which
+	// is all the statement demands; it does not demand DEL == ADD. So DEL is judged against
+	// T(ipType, trunk=false, vlanMode).
+	wantDelDP := c12RefDP(ipType, false, cs.VlanStrip)
+	if td.DP != wantDelDP {
+		c.Fatalf("%s: DEL maps the configuration to datapath %d, the table without trunking says %d for (ipType=%s vlan=%q)",
+			what, td.DP, wantDelDP, ipType, cs.VlanStrip)
+	}
+	if trunk && wantDelDP != wantDP {
+		c.Label("del-datapath-differs-from-add(trunk)")
+	}
+	if td.ContainerIPNet == nil {
+		c.Fatalf("%s: DEL parser lost the container addresses", what)
+	}
+	c12CheckIPNet(c, what+" DEL ipv4", td.ContainerIPNet.IPv4, bi.GetPodIP().GetIPv4(), bi.GetPodCIDR().GetIPv4())
+	c12CheckIPNet(c, what+" DEL ipv6", td.ContainerIPNet.IPv6, bi.GetPodIP().GetIPv6(), bi.GetPodCIDR().GetIPv6())
+	if td.ServiceCIDR == nil {
+		c.Fatalf("%s: DEL parser lost the service cidr", what)
+	}
+	c12CheckSubnet(c, what+" DEL service cidr v4", td.ServiceCIDR.IPv4, bi.GetServiceCIDR().GetIPv4())
+	c12CheckSubnet(c, what+" DEL service cidr v6", td.ServiceCIDR.IPv6, bi.GetServiceCIDR().GetIPv6())
+	if td.ENIIndex != wantIdx || td.ENIIndex != setup.ENIIndex {
+		c.Fatalf("%s: DEL ENI index %d, ADD recovered %d, the device of MAC %q has %d", what, td.ENIIndex, setup.ENIIndex, nc.GetENIInfo().GetMAC(), wantIdx)
+	}
+	if td.EnableNetworkPriority != conf.EnableNetworkPriority {
+		c.Fatalf("%s: DEL network-priority switch %v, conf %v", what, td.EnableNetworkPriority, conf.EnableNetworkPriority)
+	}
+
+	ck, err := parseCheckConf(args, nc, conf, ipType)
+	if err != nil {
+		c.Fatalf("%s: CHECK parser rejects %v: %v", what, nc, err)
+	}
+	if ck.DP != wantDP || ck.DP != setup.DP {
+		c.Fatalf("%s: CHECK maps the configuration to datapath %d, ADD chose %d and the table says %d for (ipType=%s trunk=%v vlan=%q)",
+			what, ck.DP, setup.DP, wantDP, ipType, trunk, cs.VlanStrip)
+	}
+	if ck.ContainerIPNet == nil {
+		c.Fatalf("%s: CHECK parser lost the container addresses", what)
+	}
+	c12CheckIPNet(c, what+" CHECK ipv4", ck.ContainerIPNet.IPv4, bi.GetPodIP().GetIPv4(), bi.GetPodCIDR().GetIPv4())
+	c12CheckIPNet(c, what+" CHECK ipv6", ck.ContainerIPNet.IPv6, bi.GetPodIP().GetIPv6(), bi.GetPodCIDR().GetIPv6())
+	if ck.GatewayIP == nil || !c12IPEq(ck.GatewayIP.IPv4, bi.GetGatewayIP().GetIPv4()) || !c12IPEq(ck.GatewayIP.IPv6, bi.GetGatewayIP().GetIPv6()) {
+		c.Fatalf("%s: CHECK gateway %v, the daemon sent %v", what, ck.GatewayIP, bi.GetGatewayIP())
+	}
+	if ck.ContainerIfName != setup.ContainerIfName {
+		c.Fatalf("%s: CHECK interface name %q, ADD used %q", what, ck.ContainerIfName, setup.ContainerIfName)
+	}
+	if int(ck.ENIIndex) != wantIdx || int(ck.ENIIndex) != setup.ENIIndex {
+		c.Fatalf("%s: CHECK ENI index %d, ADD recovered %d, the device of MAC %q has %d", what, ck.ENIIndex, setup.ENIIndex, nc.GetENIInfo().GetMAC(), wantIdx)
+	}
+	if ck.TrunkENI != trunk {
+		c.Fatalf("%s: CHECK trunk flag %v, sent %v", what, ck.TrunkENI, trunk)
+	}
+	if ck.DefaultRoute != nc.GetDefaultRoute() || ck.DefaultRoute != setup.DefaultRoute {
+		c.Fatalf("%s: CHECK default-route flag %v, sent %v", what, ck.DefaultRoute, nc.GetDefaultRoute())
+	}
+	if ck.MTU != conf.MTU {
+		c.Fatalf("%s: CHECK mtu %d, conf %d", what, ck.MTU, conf.MTU)
 	}
 }
 
@@ -1362,6 +1502,7 @@ func c12RunWorld(c *vt.Ctx, w c12World) {
 		if err := proto.Unmarshal(b, wire); err != nil {
 			c.Fatalf("unmarshal reply: %v", err)
 		}
+		var setups []*types.SetupConfig
 		for i, nc := range wire.GetNetConfs() {
 			cfg, err := parseSetupConf(args, nc, conf, wire.GetIPType())
 			if err != nil {
@@ -1369,6 +1510,20 @@ func c12RunWorld(c *vt.Ctx, w c12World) {
 			}
 			c12CheckParsed(c, fmt.Sprintf("plugin NetConf[%d] if=%q", i, nc.GetIfName()), cfg, nc, conf, &w.CNI, wire.GetIPType(), args.IfName)
 			c.Labelf("dp:%d", cfg.DP)
+			setups = append(setups, cfg)
+		}
+		// CNI DEL and CHECK parse the GetIPInfo reply (equal to the ADD reply, checked above)
+		b, err = proto.Marshal(info)
+		if err != nil {
+			c.Fatalf("marshal GetIPInfo reply: %v", err)
+		}
+		infoWire := &rpc.GetInfoReply{}
+		if err := proto.Unmarshal(b, infoWire); err != nil {
+			c.Fatalf("unmarshal GetIPInfo reply: %v", err)
+		}
+		for i, nc := range infoWire.GetNetConfs() {
+			c12CheckDelCheck(c, fmt.Sprintf("plugin GetIPInfo NetConf[%d] if=%q", i, nc.GetIfName()), nc, setups[i], conf, &w.CNI,
+				infoWire.GetIPType(), args)
 		}
 		if round == 0 {
 			first = reply
@@ -1472,7 +1627,7 @@ func (n *c12NC) toRPC() *rpc.NetConf {
 		ServiceCIDR: &rpc.IPSet{IPv4: n.Svc4, IPv6: n.Svc6},
 	}
 	if n.HasENI {
-		nc.ENIInfo = &rpc.ENIInfo{MAC: n.MAC, Trunk: n.Trunk, Vid: n.Vid, ERDMA: n.ERDMA}
+		nc.ENIInfo = &rpc.ENIInfo{MAC: c12MAC(n.MAC), Trunk: n.Trunk, Vid: n.Vid, ERDMA: n.ERDMA}
 		if n.HasENIGW {
 			nc.ENIInfo.GatewayIP = &rpc.IPSet{IPv4: n.ENIGW4, IPv6: n.ENIGW6}
 		}
@@ -1526,6 +1681,8 @@ func c12RunParse(c *vt.Ctx, s c12ParseScenario) {
 			c.Fatalf("variant %d: parser rejects a well-formed NetConf %v: %v", i, wire, err)
 		}
 		c12CheckParsed(c, fmt.Sprintf("variant %d", i), cfg, wire, conf, cs, ipType, n.ArgIfName)
+		// the same configuration as CNI DEL and CNI CHECK would receive it from GetIPInfo
+		c12CheckDelCheck(c, fmt.Sprintf("variant %d", i), wire, cfg, conf, cs, ipType, args)
 		dps = append(dps, cfg.DP)
 		if cs.RtIngress > 0 || cs.RtEgress > 0 {
 			c.Label("runtime-bandwidth")
